@@ -227,6 +227,9 @@ def gen_e2e_case(rng, n):
     case = {'kind': 'e2e', 'cls': cls, 'stage': stage, 'as_cfg': rng.random() < 0.4, 'config': enc(cfg, (), []), 'plants': plants,
             'meta': cls in ('VideoIn', 'VideoOut')}
     if cls == 'VideoIn' and rng.random() < 0.4: case['open_fail'] = rng.randint(0, 3)
+    if cls == 'MQTTOut' and rng.random() < 0.5:
+        # the documented way to give broker credentials (config.username / config.password), set IN ADDITION to whatever the URI carries
+        cfg['username'] = 'mqttuser'; cfg['password'] = rng.choice(['brokerpw', None]) ; case['config'] = enc(cfg, (), [])
     if cls == 'VideoOut' and rng.random() < 0.6:
         # the filter-wide defaults of VideoOut (documented options): they reach every writer, file or stream
         glob = {}
